@@ -504,7 +504,10 @@ def housekeeping() -> None:
 def _quiet_unraisable(unraisable, _default=__import__('sys').unraisablehook) -> None:
     """Subscription.__del__ of a *previous* universe finds its registry entry gone (we emptied the registry) and trips
     over ``{}.discard`` (or runs while the stack is exhausted by a placeholder cycle); that finalizer noise is irrelevant."""
-    if unraisable.exc_type in (AttributeError, RecursionError) and getattr(unraisable.object, '__qualname__', '') == 'Subscription.__del__':
+    kind = unraisable.exc_type
+    if kind is RecursionError:  # finalizers running while a placeholder cycle has exhausted the stack
+        return
+    if kind is AttributeError and getattr(unraisable.object, '__qualname__', '') == 'Subscription.__del__':
         return
     _default(unraisable)
 
